@@ -6,7 +6,7 @@ _FILES = {"zz_verif_c14_common_test.go": "c14/common_e2e.go", "zz_verif_c14_gen_
 SPEC = Spec(
     pid="C14",
     lean_modules=["OtelVerif.Props.C14"],
-    translators=[go_translator("opaquemethods", "OtelVerif/Gen/Opaque.lean")],
+    translators=[go_translator("opaquemethods", "OtelVerif/Gen/Opaque.lean"), go_translator("squashhook", "OtelVerif/Gen/SquashHook.lean")],
     harnesses=[
         Harness(name="fmt", module="internal/e2e", pkg="internal/e2e", common=False,
                 files=dict(_FILES, **{"zz_verif_c14_fmt_test.go": "c14/fmt_test.go"}),
@@ -18,6 +18,10 @@ SPEC = Spec(
         Harness(name="owned", module="internal/e2e", pkg="internal/e2e", common=False,
                 files=dict(_FILES, **{"zz_verif_c14_owned_test.go": "c14/owned_test.go"}),
                 test="TestVerifC14Owned", driver=None, n={"quick": 50, "thorough": 500}, timeout_s=600),
+        # monitor only: every otelcorecol config type with injected secrets through zap field encoders, slog, fmt, json, yaml, confmap.Marshal
+        Harness(name="builtin_all", module="cmd/otelcorecol", pkg="cmd/otelcorecol",
+                files={"zz_verif_c14_builtin_all_test.go": "c14/builtin_all_test.go"},
+                test="TestVerifC14BuiltinAll", driver=None, n={"quick": 1, "thorough": 1}, timeout_s=600),
     ],
     rule="fmt: for the real configopaque.String and 10 twin types of string kind with other method sets, every verb (all ASCII runes "
          "that are not flag characters + non-ASCII samples) x flag sets (9 quick / all 32 thorough) x width x precision {none,0,3} "
